@@ -37,6 +37,7 @@ pub struct Facts {
     pub cmap_formats: Vec<u16>,
     pub has_glyf: bool,
     pub has_cff: bool,
+    pub has_cff2: bool,
     pub loca_long: bool,
     pub odd_length_tables: usize,
     pub composites: usize,
@@ -146,14 +147,15 @@ pub fn validate(data: &[u8], opts: &Opts) -> (Vec<Finding>, Facts) {
     };
     facts.has_glyf = get("glyf").is_some();
     facts.has_cff = get("CFF ").is_some();
+    facts.has_cff2 = get("CFF2").is_some();
     if opts.require_core {
         for t in ["head", "hhea", "maxp", "hmtx", "post"] {
             if get(t).is_none() {
                 f(&mut out, "tables", "required-table-missing", format!("table {} missing", t));
             }
         }
-        if !(facts.has_cff || (facts.has_glyf && get("loca").is_some())) {
-            f(&mut out, "tables", "required-table-missing", "neither glyf+loca nor CFF present".into());
+        if !(facts.has_cff || facts.has_cff2 || (facts.has_glyf && get("loca").is_some())) {
+            f(&mut out, "tables", "required-table-missing", "neither glyf+loca nor CFF / CFF2 present".into());
         }
     }
     if opts.require_cmap && get("cmap").is_none() {
